@@ -1,3 +1,5 @@
 import GitAiModel.Base.Text
 import GitAiModel.Model.NoteFormat
 import GitAiModel.Props.C17
+import GitAiModel.Props.C10
+import GitAiModel.Props.C19
